@@ -11,9 +11,12 @@ import (
 // Free-running stress of sync2.Map (no scheduler installed; the hooks are compiled in but do nothing).
 // Plan line: {"threads":n,"ops":m,"keys":k,"seed":s,"rounds":r,"log":bool}
 // log=false: no shared harness state at all between the goroutines (for the race detector: a logging
-//            counter would add happens-before edges and hide races); output is one line per round.
+//
+//	counter would add happens-before edges and hide races); output is one line per round.
+//
 // log=true:  every call is bracketed by a global sequence number taken before it starts and after it
-//            returns; the history is emitted in sequence order for the linearizability validator.
+//
+//	returns; the history is emitted in sequence order for the linearizability validator.
 func init() { comps["syncmap-stress"] = stressSyncMap }
 
 func stressSyncMap(plan []M, out *Out, _ []string) {
